@@ -1,12 +1,15 @@
 import Invoke.Lemmas.Collection
+import Invoke.Lemmas.CollectionHeap
 /-! # C17 — a task's namespace settings are the deep merge along its path, outer wins
 
 Property theorems only; the model is `Invoke/Model/Collection.lean` (`twc` = `Collection.task_with_config`,
 settings merged with `mergeKVs` = `invoke.config.merge_dicts`), helper lemmas and the specification
 vocabulary (`IsChain`, `Holds`, `mergeAlong`, `leafAlong`, `graft`, `visits`) live in
 `Invoke/Lemmas/Collection.lean`.  Names are component lists (`"a.b.t"` ↦ `[a, b, t]`).
-Freshness of the returned mapping is an aliasing property of the Python objects: it is established on
-the real result by the harness (identity scan + mutation), not here. -/
+Freshness of the returned mapping is an aliasing property of the Python objects: it is proved on a minimal
+object model (`OVal`: dicts carry the address of the object they are, `copy_dict` / `merge_dicts` allocate
+fresh addresses; `configuration_fresh*`) that is shown to compute the value model, and it is established on
+the real result by the harness (identity scan + mutation). -/
 namespace Inv
 open Coll
 
@@ -113,10 +116,94 @@ example : root.twc [S "a"] = root.twc [S "a", S "b", S "t"] ∧ root.twc [S "a",
 example : (graft [S "a", S "sib"] b root).twc [S "a"] = root.twc [S "a"] :=
   siblings_contribute_nothing [S "a", S "sib"] b root [S "a"] (by decide)
 
+set_option linter.unusedSimpArgs false in
+/-- the collection `a` asked for its default (empty name), after the repair: `b`'s settings are there -/
+theorem a_default_eval : a.twc [[]] =
+    .ok (1, [I "kb" 1, (S "sec", .dict [I "x" 1, I "y" 2]), I "ka" 2]) := by
+  simp +decide [a, b, sib, S, I, twc_mk, twcKids, stepName, isEmptyName, transform, xfAux, xfChar, assoc,
+    lexGet, lexResult, mergeOuter, splitOnDot, mergeKVs.eq_1, mergeKVs.eq_2, mergeKVs.eq_3, mergeKVs.eq_4,
+    mergeKVs.eq_5, mergeKVs.eq_6, mergeKVs.eq_7, Inv.lookup, Inv.insert, Except.map]
+
+set_option linter.unusedSimpArgs false in
+/-- the rule before the repair of the empty-name branch (`return self[self.default], ours`) found the
+    right task through the default SUB-COLLECTION `b` but returned only `a`'s own settings: `kb` and
+    `sec.x` of `b` were lost; the repaired lookup has them -/
+theorem default_subcollection_settings_counterexample :
+    taskOf (twcEmptyPinned a) = some 1 ∧ leafOf (twcEmptyPinned a) [S "kb"] = none ∧
+    leafOf (twcEmptyPinned a) [S "sec", S "x"] = none ∧
+    taskOf (a.twc [[]]) = some 1 ∧ leafOf (a.twc [[]]) [S "kb"] = some (.i 1) ∧
+    leafOf (a.twc [[]]) [S "sec", S "x"] = some (.i 1) := by
+  have hp : twcEmptyPinned a = .ok (1, a.cfg) := by
+    simp +decide [twcEmptyPinned, a, b, sib, S, I, twc_mk, twcKids, stepName, isEmptyName, transform, xfAux, xfChar,
+      assoc, lexGet, lexResult, mergeOuter, splitOnDot, mergeKVs.eq_1, mergeKVs.eq_2, mergeKVs.eq_3, mergeKVs.eq_4,
+      mergeKVs.eq_5, mergeKVs.eq_6, mergeKVs.eq_7, Inv.lookup, Inv.insert, Except.map, Coll.default, Coll.cfg]
+  rw [hp, a_default_eval]
+  decide
+
 /-- before the repair (`dict(config, **ours)`) the inner setting `sec.x` was lost under the outer `sec`;
     the recursive merge keeps it -/
 theorem shallow_merge_counterexample :
     getLeaf [S "sec", S "x"] (shallowMerge b.cfg a.cfg) = none ∧
     getLeaf [S "sec", S "y"] (shallowMerge b.cfg a.cfg) = some (.i 2) := by decide
+
+/-! ## freshness (object model) -/
+
+open OVal in
+/-- `configuration_fresh`.  Let the stored configuration objects of the collections on the path (root
+    first) be `objs`, all allocated before the call (addresses below the allocation counter `n₀`).  Every
+    dict object reachable from the mapping that `task_with_config` / `configuration` builds
+    (`copy_dict` of the innermost, then `merge_dicts(config, copy_dict(outer))` outwards) was allocated
+    during the call: none of them is (part of) a stored configuration of any collection on the path -
+    changing the result cannot change a stored configuration. -/
+theorem configuration_fresh (objs : List OVal) (n₀ : Nat) (r : OVal × Nat)
+    (hstored : ∀ x ∈ objs, ∀ a ∈ addrs x, a < n₀) (h : buildAlong n₀ objs = some r) :
+    (∀ a ∈ addrs r.1, n₀ ≤ a) ∧ ∀ a ∈ addrs r.1, ∀ x ∈ objs, a ∉ addrs x := by
+  have hf := (buildAlong_fresh objs n₀ r h).2
+  refine ⟨fun a ha => (hf a ha).1, ?_⟩
+  intro a ha x hx hax
+  have := hstored x hx a hax
+  have := (hf a ha).1
+  omega
+
+open OVal in
+/-- …and the object model computes the value model: for ANY lookup that resolves, if `objs` are the
+    stored configuration objects of the collections on the path (their values are the `cfg`s of the
+    chain of C17's headline theorem, well-formed dicts), the construction succeeds, the object built has
+    exactly the settings `cfg` the lookup returns, and it is fresh. -/
+theorem configuration_fresh_for_lookup (c : Coll) (p : List CName) (t : Nat) (cfg : KVs)
+    (h : c.twc p = .ok (t, cfg)) :
+    ∃ chain, IsChain c chain ∧ Holds (lastOf c chain) t ∧
+      ∀ (objs : List OVal) (n₀ : Nat), objs.map cfgOf = c.cfg :: chain.map Coll.cfg →
+        (∀ x ∈ objs, IsCfg x) → (∀ x ∈ objs, ∀ a ∈ addrs x, a < n₀) →
+        ∃ r, buildAlong n₀ objs = some r ∧ cfgOf r.1 = cfg ∧ ∀ a ∈ addrs r.1, ∀ x ∈ objs, a ∉ addrs x := by
+  obtain ⟨chain, hc, hh, hm⟩ := twc_chain c p t cfg h
+  refine ⟨chain, hc, hh, ?_⟩
+  intro objs n₀ hmap hcfg hst
+  have hne : objs ≠ [] := by intro e; subst e; simp at hmap
+  have he := buildAlong_erase objs n₀ hcfg hne
+  rw [hmap, hm] at he
+  cases hb : buildAlong n₀ objs with
+  | none => rw [hb] at he; cases he
+  | some r =>
+    rw [hb] at he
+    simp only [Except.ok.injEq] at he
+    exact ⟨r, rfl, he.2.symm, (configuration_fresh objs n₀ r hst hb).2⟩
+
+namespace C17ex
+def L (k : String) (i : Int) : Key × OVal := (S k, .leaf (.i i))
+/-- stored configuration objects of `a` (addresses 0, 1) and `b` (addresses 2, 3) -/
+def oa : OVal := .dict 0 [L "ka" 2, (S "sec", .dict 1 [L "y" 2])]
+def ob : OVal := .dict 2 [L "kb" 1, (S "sec", .dict 3 [L "x" 1, L "y" 7])]
+end C17ex
+
+-- the result built for a task of `a.b` at allocation counter 10: objects 10 and 11 (the copy of `b`'s dict and
+-- of its section, mutated in place by the merge); the copies 12, 13 of `a`'s objects are garbage afterwards
+example : (OVal.buildAlong 10 [oa, ob]).map (fun r => (OVal.addrs r.1, r.2)) = some ([10, 11], 14) := by decide
+example : ∀ x ∈ [oa, ob], ∀ a ∈ OVal.addrs x, a < 10 := by decide
+
+/-- a shallow copy of the stored dict (what `dict(self._configuration)` would give) is NOT fresh: the
+    nested section is the stored object itself -/
+theorem shallow_copy_shares_counterexample :
+    3 ∈ OVal.addrs (OVal.shallowCopyO 10 ob) ∧ 3 ∈ OVal.addrs ob := by decide
 
 end Inv
